@@ -38,6 +38,7 @@ CONFIGS = {
     # name: (core kwargs, K quick, K thorough, tiers)
     "sdr_2b_2p": (dict(phy="sdr_fast", bankbits=1, nports=2, timing=T_SMALL, ctrl=dict(cmd_buffer_depth=4)), 36, 60, "qt"),
     "ddr3_1_4_2b_2p": (dict(phy="ddr3_fast", bankbits=1, nports=2, timing=T_SMALL, ctrl=dict(cmd_buffer_depth=4)), 36, 60, "qt"),
+    "ddr3_1_4_wrphase0": (dict(phy="ddr3_fast_wr0", bankbits=1, nports=2, timing=T_SMALL, ctrl=dict(cmd_buffer_depth=4)), 30, 50, "qt"),
     "ddr3_1_4_2rank": (dict(phy="ddr3_fast", bankbits=1, nports=2, nranks=2, timing=T_SMALL, ctrl=dict(cmd_buffer_depth=4)), 24, 30, "qt", False),
     "sdr_noap_fulltimings": (dict(phy="sdr_fast", bankbits=1, nports=2, timing=T_FULL, ctrl=dict(cmd_buffer_depth=4, with_auto_precharge=False)), 36, 60, "qt"),
     "ddr_1_2_4b_3p": (dict(phy="ddr3_fast2", bankbits=2, nports=3, timing=T_FULL, ctrl=dict(cmd_buffer_depth=4, cmd_buffer_buffered=True)), 0, 44, "t"),
